@@ -144,10 +144,12 @@ func c03Scenario(nConn int) *explore.Scenario {
 			n := ids[x.Choose("id", len(ids))]
 			sni := snis[x.Choose("sni", len(snis))]
 			conn := x.Choose("connection", nConn)
+			// how the caller gets to the first flight: the documented orders must all send the spec
+			build := x.Choose("build", 3) // 0 BuildHandshakeState+Handshake, 1 Handshake only, 2 BuildHandshakeStateWithoutSession, BuildHandshakeState, Handshake
 			cfg := peer.ClientConfig(sni)
 			cfg.OmitEmptyPsk = true
 			cfg.Rand = newScriptRand(fmt.Sprintf("c03-%d", conn))
-			what := fmt.Sprintf("%s sni-len=%d conn=%d", n.Name, len(sni), conn)
+			what := fmt.Sprintf("%s sni-len=%d conn=%d build-order=%d", n.Name, len(sni), conn, build)
 			// reference spec: a second, independent UTLSIdToSpec call
 			spec, err := tls.UTLSIdToSpec(n.ID)
 			if err != nil {
@@ -166,7 +168,17 @@ func c03Scenario(nConn int) *explore.Scenario {
 					}
 				}
 			}
-			stream, _, perr, pm := firstFlight(cfg, n.ID, nil)
+			var stream []byte
+			var perr error
+			var pm string
+			switch build {
+			case 0:
+				stream, _, perr, pm = firstFlight(cfg, n.ID, nil)
+			case 1:
+				stream, perr, pm = handshakeOnlyFlight(cfg, n.ID)
+			default:
+				stream, _, perr, pm = firstFlight(cfg, n.ID, func(u *tls.UConn) error { return u.BuildHandshakeStateWithoutSession() })
+			}
 			if pm != "" {
 				r.Violate("C03|panic", "%s: %s", what, pm)
 				return
@@ -264,6 +276,24 @@ func c03Scenario(nConn int) *explore.Scenario {
 	}
 }
 
+// handshakeOnlyFlight sends the first flight with a bare Handshake() (no explicit build).
+func handshakeOnlyFlight(cfg *tls.Config, id tls.ClientHelloID) (stream []byte, err error, panicMsg string) {
+	ce, se := peer.Pipe()
+	se.SetIdle()
+	u := tls.UClient(ce, cfg, id)
+	func() {
+		defer func() {
+			if e := recover(); e != nil {
+				panicMsg = fmt.Sprint(e)
+			}
+		}()
+		if herr := u.Handshake(); herr != nil && ce.WriteCount() == 0 {
+			err = herr
+		}
+	}()
+	return ce.AllWritten(), err, panicMsg
+}
+
 func c03Scenarios(thorough bool) []*explore.Scenario {
 	if thorough {
 		return []*explore.Scenario{c03Scenario(200)}
@@ -274,7 +304,7 @@ func c03Scenarios(thorough bool) []*explore.Scenario {
 func init() {
 	register(&Prop{ID: "C03", Level: "exploration", Variant: "A", Scenarios: c03Scenarios,
 		Run: func(c *explore.Check, thorough bool) {
-			c.Rule = "every predefined parrot x 3 SNI shapes x 12 (200) connections with per-connection scripted entropy: legacy_version, cipher suites, compression and every extension (sequence for non-shuffling parrots; multiset plus fixed positions of GREASE/padding/pre_shared_key for shuffling ones) compared with an independent reference encoding (refNorm, written from the RFCs) of a second UTLSIdToSpec call, per-connection material masked. distinct = (id, sni length, observed extension order)"
+			c.Rule = "every predefined parrot x 3 SNI shapes x 12 (200) connections with per-connection scripted entropy x 3 ways of reaching the first flight {BuildHandshakeState then Handshake, Handshake alone, BuildHandshakeStateWithoutSession then BuildHandshakeState then Handshake}: legacy_version, cipher suites, compression and every extension (sequence for non-shuffling parrots; multiset plus fixed positions of GREASE/padding/pre_shared_key for shuffling ones) compared with an independent reference encoding (refNorm, written from the RFCs) of a second UTLSIdToSpec call, per-connection material masked. distinct = (id, sni length, observed extension order)"
 			c.Assumptions = []string{"the Chrome shuffle is driven by its own crypto/rand seed: permutations are observed over the enumerated connections, not enumerated decision by decision", "padding presence is taken from the wire (its policy is C05's subject)"}
 			runAll(c, c03Scenarios(thorough), 0)
 			c.Gate(c.Total.Counters["shuffler_hellos"] > 20, "non-vacuity: %d shuffler hellos", c.Total.Counters["shuffler_hellos"])
